@@ -75,6 +75,16 @@ def stepC25 (ts : List String) : String :=
         match pi.toNat? with
         | some pi => ({ st with pfx := st.pfx.set pi none }, acc.2 ++ ["ok"])
         | none => bad
+      | ["bfunc", pi, _, kvs] =>
+        -- `BatchFunc` through a prefix storage: the puts of all its batches land under the prefix
+        match pi.toNat?, (kvs.splitOn ",").mapM (fun kv => match kv.splitOn "." with
+            | [k, v] => (match toNatBytes k, toNatBytes v with | some k, some v => some (k, v) | _, _ => none)
+            | _ => none) with
+        | some pi, some kvs =>
+          match st.pfx.getD pi none with
+          | none => (st, acc.2 ++ ["closed"])
+          | some p => ({ st with store := kvs.foldl (fun s kv => put s (p ++ kv.1) kv.2) st.store }, acc.2 ++ ["ok"])
+        | _, _ => bad
       | ["batch", pi, k, v, k2] =>
         match pi.toNat?, toNatBytes k, toNatBytes v, toNatBytes k2 with
         | some pi, some k, some v, some k2 =>
